@@ -205,4 +205,67 @@ PROPS = {
             "wrappers.net_headers_ok": 5000,
         },
     },
+    "C13": {
+        "level": "exploration",
+        "rule": "cases = TCP option element lists (EXHAUSTIVE over all list shapes of 0..=7 elements over nine shapes incl. SACK with 0-3 extra "
+                "blocks, lists composed to exact sizes 24..56, random lists) through try_from_elements / set_options / elements_iter, and raw "
+                "option areas (EXHAUSTIVE: all byte strings of length 0..3 and every (kind, length octet, octets left) triple; grammar "
+                "generated, random, mutated encodings) through TcpOptionsIterator / try_from_slice / set_options_raw / header slices; oracle = "
+                "independent RFC 9293/2018/7323 encoder + parser (refmodel/tcpopts.rs); rest() before/after every item, error fields, "
+                "exhaustion, step budget; distinct = distinct (engine, item kind sequence, outcome) signatures",
+        "assumptions": COMMON_ASSUME + [
+            "a SACK element with gaps in its block array ([None, Some, None]) is compacted on the wire (the format cannot express the gap): the compacted element is demanded",
+            "where several rules are broken at once every truthful error description is accepted",
+        ],
+        "coverage_extra": {"exhaustive_subdomains": {"raw areas len 0..3": 16843009, "raw (kind,len,left)": 2555904, "list shapes len 0..7": 5380840}},
+        "runs": {"quick": [dict(CHK)], "thorough": [dict(CHK)]},
+        "abnormal_owner": "C13",
+        "mandatory": {
+            "exh.raw_len_0": 1, "exh.raw_len_1": 256, "exh.raw_len_2": 65536, "exh.raw_len_3": 16777216, "exh.raw_kind_len_left": 2555904,
+            "exh.list_shapes_len_7": 4782969, "exh.list_shapes_len_6": 531441,
+            "lists.accepted": 800000, "lists.rejected": 3000000, "lists.size_40": 30000, "lists.size_41": 30000,
+            "elem.decoded.sack4": 80000, "err.UnexpectedEndOfSlice": 400000, "err.UnexpectedSize": 1500000, "err.UnknownId": 20000000,
+            "areas.fully_tiled_nonempty": 250000, "areas.fault_behind_valid_items": 1000000, "raw_set.rejected_over_40": 10000,
+            "header_slice_paths.agree": 6000000,
+        },
+    },
+    "C14": {
+        "level": "exploration",
+        "rule": "table driven: one row per length-taking API (Ipv4Header::new/set_payload_len/set_options, IpHeaders::set_payload_len with and "
+                "without extension headers, Ipv6Header::set_payload_length, UdpHeader constructors and checksum functions, TCP/UDP/ICMPv6 "
+                "pseudo-header checksum functions incl. TransportHeader::update_checksum_ipv4, MACsec set_payload_len / from_len, "
+                "IpAuthHeader::new/set_raw_icv, Ipv6RawExtHeader::new_raw/set_payload, Ipv4Options, TcpHeader::set_options_raw, "
+                "ArpPacket::new/set_hw_addrs/set_protocol_addrs); probes {0,1,limit-4..limit+4, alignment neighbours, 2^16+-2, 2^32+-2, "
+                "usize::MAX}; the true limit of each row is derived from the wire field width in the monitor; huge payloads are NORESERVE "
+                "zero mappings (accept side of the 2^32 limits in thorough only); distinct = distinct (API, below/at/above limit class)",
+        "assumptions": COMMON_ASSUME + ["builder payload limits are exercised by C10"],
+        "runs": {"quick": [dict(CHK, shards=8)], "thorough": [dict(CHK, shards=8)]},
+        "mandatory": {"accepted.*": 10000, "rejected.*": 10000, "macsec.unknown_fallback": 100, "macsec.encoded_exactly": 100,
+                      "rejected.IpHeaders::set_payload_len(ipv4+auth)": 100, "rejected.Icmpv6Type::calc_checksum": 10,
+                      "rejected.TcpHeader::calc_checksum_ipv6": 10, "rejected.UdpHeader::calc_checksum_ipv6_raw": 10},
+        "min_distinct": {"accepted.*": 28, "rejected.*": 28},
+    },
+    "C15": {
+        "level": "exploration",
+        "rule": "EXHAUSTIVE over the complete raw domain of every bounded type through try_new/TryFrom (u8 types: 256 each, VlanId/IpFragOffset: "
+                "65536, Ipv6FlowLabel: the complete u32 domain), decode side: all 65536 values of the octet pairs holding VLAN PCP/DEI/VID, IPv4 "
+                "flags/fragment offset, IPv6 fragment offset, MACsec TCI/SL, all 256 IPv4 TOS / IGMPv3 octet-8 values, all 2^20 flow labels; "
+                "encode side: every value of each field against all-zeros/all-ones/random neighbours, diff against a baseline header must stay "
+                "inside the field's mask; oracle = independent mask table from IEEE 802.1Q/802.1AE, RFC 791/2474/3168/8200/3376; distinct = "
+                "distinct (type, accepted/rejected class) / (header, field) signatures",
+        "assumptions": COMMON_ASSUME + ["acceptance decisions of decoders (MACsec version bit, IHL, ...) are counted, not judged here (C03)"],
+        "coverage_extra": {"exhaustive_subdomains": {"Ipv6FlowLabel raw u32": 4294967296, "VlanId raw u16": 65536, "IpFragOffset raw u16": 65536}},
+        "runs": {"quick": [dict(CHK)], "thorough": [dict(CHK)]},
+        "mandatory": {
+            "selfcheck.reference_table_ok": 1, "exhaustive.VlanId.values": 65536, "exhaustive.IpFragOffset.values": 65536,
+            "exhaustive.VlanPcp.values": 256, "exhaustive.IpDscp.values": 256, "exhaustive.IpEcn.values": 256,
+            "exhaustive.MacsecAn.values": 256, "exhaustive.MacsecShortLen.values": 256, "exhaustive.igmp::Qrv.values": 256,
+            "exhaustive.Ipv6FlowLabel.full_domain.values": 4294967296, "exhaustive.Ipv6FlowLabel.full_domain.accepted": 1048576,
+            "exhaustive.dec_vlan.values": 65536, "exhaustive.dec_ipv4_frag.values": 65536, "exhaustive.dec_ipv6_frag.values": 65536,
+            "exhaustive.dec_macsec.values": 65536, "exhaustive.dec_macsec.accepted_values": 32000, "exhaustive.dec_ipv6.flow_labels": 1048576,
+            "exhaustive.enc.Ipv6Header.flow_label": 1048576, "exhaustive.enc.Ipv4Header.fragment_offset": 8192,
+            "exhaustive.enc.SingleVlanHeader.vlan_id": 4096, "exhaustive.enc.MacsecHeader.short_len": 64,
+            "exhaustive.enc.IgmpMembershipQueryWithSources.qrv": 8, "igmp_setters.ok": 68096, "ipv6_tc_setters.ok": 17408,
+        },
+    },
 }
